@@ -90,9 +90,8 @@ func splitNodes(nodes []node) [][]node {
 			o = i + 1
 		}
 	}
-	if o < len(nodes) {
-		split = append(split, nodes[o:])
-	}
+	// The tail after the last divider is a part as well, even when it is empty (eg: "...{% else %}{% endfor %}").
+	split = append(split, nodes[o:])
 	return split
 }
 
